@@ -28,6 +28,7 @@ CHECKS = {
             dict(name="trickle", run="^TestPropTrickle$", checks=(12, 60), shards=(4, 8), shrinktime="1s"),
             dict(name="backlog", run="^TestPropBacklogRestart$", checks=(1500, 12000), shards=(4, 16), shrinktime="5s"),
             dict(name="disconnect", run="^TestPropDisconnect$", checks=(15, 200), shards=(2, 8), shrinktime="5s"),
+            dict(name="startup", run="^TestPropStartupRequests$", checks=(1000, 10000), shards=(1, 4)),
             dict(name="regress", run="^TestRegress", shards=(1, 1)),
         ],
     ),
